@@ -812,3 +812,28 @@ def _ieee_probes(tier="quick", seed=0):
 
 
 JOBS = {"C11.ieee_probes": _ieee_probes}
+
+
+def _native_rejections(tier="quick", seed=0):
+    """BOUNDED: the object-model setters with values outside their documented domain (the out-of-domain leg of the C09 sweep): each is
+    refused with TypeError / ValueError and nothing has changed"""
+    from contracts import c09
+
+    r = c09._native_setget_sweep(tier=tier, seed=seed)
+    keep = []
+    for o in r["obligations"]:
+        nm = o["name"]
+        if "out-of-domain" in nm or "refusal" in nm or "refused" in nm:
+            o = dict(o, name=nm.replace("C09.", "C11."), base=o["base"].replace("C09.", "C11."))
+            keep.append(o)
+    ok = {"name": "C11.native.out_of_domain_values_refused_unchanged", "base": "C11.native.out_of_domain_values_refused_unchanged", "kind": "bounded",
+          "status": "refuted" if any(o["status"] == "refuted" for o in keep) else "discharged", "backend": "native", "time": 0, "path": 0}
+    if ok["status"] == "refuted":
+        ok["replay"] = {"confirmed": True, "witness_class": "set-get", "detail": "; ".join(o["replay"]["detail"] for o in keep if o["status"] == "refuted")[:600]}
+        ok["model"] = None
+    r = dict(r, contract="C11.native_rejections", prop="C11", obligations=keep + [ok])
+    r["bounded"] = dict(r["bounded"], name="C11.native_rejections", bound="out-of-domain leg of the C09 set/get sweep: " + r["bounded"]["bound"])
+    return r
+
+
+JOBS["C11.native_rejections"] = _native_rejections
